@@ -352,10 +352,27 @@ impl Ctx<'_> {
             let _ = block_on(s2.commit());
             let back = block_on(omaha_client::state_machine::update_check::Context::load(&s2));
             let ctx_got = back.schedule.last_update_time.and_then(|p| p.checked_to_system_time());
-            (set_ok, commit_ok, before_commit, got, pm, none_m, ctx_got)
+            // history on the same store: a context without a wall-clock time replaces the stored instant by nothing
+            let ctx2 = omaha_client::state_machine::update_check::Context {
+                schedule: if n & 1 == 0 {
+                    omaha_client::common::UpdateCheckSchedule::builder().build()
+                } else {
+                    omaha_client::common::UpdateCheckSchedule::builder().last_update_time(PartialComplexTime::Monotonic(mono)).build()
+                },
+                state: omaha_client::common::ProtocolState::default(),
+            };
+            block_on(ctx2.persist(&mut s2));
+            let _ = block_on(s2.commit());
+            let back2 = block_on(omaha_client::state_machine::update_check::Context::load(&s2));
+            let ctx_after_clear = back2.schedule.last_update_time;
+            (set_ok, commit_ok, before_commit, got, pm, none_m, ctx_got, ctx_after_clear)
         }) {
             Err(p) => self.panicked("storage-roundtrip", p, case),
-            Ok((set_ok, commit_ok, before_commit, got, pm, none_m, ctx_got)) => {
+            Ok((set_ok, commit_ok, before_commit, got, pm, none_m, ctx_got, ctx_after_clear)) => {
+                if ctx_after_clear.is_some() {
+                    self.viol("storage-roundtrip", "storage-roundtrip context stale-after-clear".into(),
+                        format!("a Context without a wall-clock last_update_time was persisted over epoch{:+} ns, yet a reload yields {:?}", n, ctx_after_clear), case);
+                }
                 if ctx_got != expect {
                     let show = |x: Option<SystemTime>| x.map(|t| format!("epoch{:+} ns", ns_of_st(t)));
                     self.viol("storage-roundtrip", format!("storage-roundtrip context {}", if n < 0 { "pre-epoch" } else { "post-epoch" }),
@@ -439,6 +456,28 @@ impl Ctx<'_> {
                             n, w1.unwrap_or(0), m1.unwrap_or(0), want), case);
                 }
                 self.r.hit("truncate-idempotent");
+                // the same helper on the library's settable clock: every handle of the clock (clones taken
+                // before the call included) reads the truncated time, and truncating again changes nothing
+                if em.is_some() {
+                    use omaha_client::time::{MockTimeSource, TimeSource};
+                    let r2 = guard(|| {
+                        let mut src = MockTimeSource::new(c);
+                        let other = src.clone();
+                        src.truncate_submicrosecond_walltime();
+                        let (x, y) = (src.now(), other.now());
+                        src.truncate_submicrosecond_walltime();
+                        (x, y, src.now())
+                    });
+                    match r2 {
+                        Err(p) => self.panicked("truncate-idempotent", p, case),
+                        Ok((x, y, z)) => {
+                            if x != once || y != once || z != once {
+                                self.viol("truncate-idempotent", format!("truncate-idempotent clock-handles {era}"),
+                                    format!("settable clock at wall epoch{:+} ns: after truncate the truncating handle reads {:?}, a clone taken before reads {:?}, after a second truncate {:?}; expected {:?} everywhere", n, x, y, z, once), case);
+                            }
+                        }
+                    }
+                }
                 if twice != once {
                     let (_, w2, m2) = norm_c(self.base, twice);
                     self.viol("truncate-idempotent", format!("truncate-idempotent {era}"),
